@@ -19,10 +19,81 @@ from fractions import Fraction
 from .. import translate
 from . import normalize
 from ..translate import Untranslatable
+from .threshold import parse_tcu
 
 
 def lstr(s):
     return '"' + s.replace("\\", "\\\\").replace('"', '\\"') + '"'
+
+
+# ---------------------------------------------------------------------------------------------------------------
+# Bool terms: ("c", bool) | ("atom", lean text, key, negated) | ("not", t) | ("and", [t..]) | ("or", [t..]) | ("ite", c, a, b)
+# `text` prints a term exactly the way this lifter always printed it; `ev` evaluates it under an assignment of the atom keys.
+# Two comparison atoms that are the same comparison read from the other side (`a < b` / `b > a`, `a <= b` / `b >= a`,
+# `a == b` / `b == a`, `a != b` = not `a == b`) share a key.
+TRUE, FALSE = ("c", True), ("c", False)
+PINNED_NUM_TERMS = ["(costs_fp + costs_fn)"]
+
+
+def text(t):
+    k = t[0]
+    if k == "c":
+        return "true" if t[1] else "false"
+    if k == "atom":
+        return t[1]
+    if k == "not":
+        return f"(!{text(t[1])})"
+    if k in ("and", "or"):
+        return "(" + (" && " if k == "and" else " || ").join(text(x) for x in t[1]) + ")"
+    if k == "ite":
+        return f"(if {text(t[1])} then {text(t[2])} else {text(t[3])})"
+    raise AssertionError(k)
+
+
+def ev(t, env):
+    k = t[0]
+    if k == "c":
+        return t[1]
+    if k == "atom":
+        return env[t[2]] != t[3]
+    if k == "not":
+        return not ev(t[1], env)
+    if k == "and":
+        return all(ev(x, env) for x in t[1])
+    if k == "or":
+        return any(ev(x, env) for x in t[1])
+    return ev(t[2], env) if ev(t[1], env) else ev(t[3], env)
+
+
+def atom_keys(t, out=None):
+    out = set() if out is None else out
+    if t[0] == "atom":
+        out.add(t[2])
+    elif t[0] in ("and", "or"):
+        for x in t[1]:
+            atom_keys(x, out)
+    elif t[0] != "c":
+        for x in t[1:]:
+            atom_keys(x, out)
+    return out
+
+
+def prefer(t, pinned):
+    """the text of `t` -- or, when `t` denotes the same Bool function of the same atomic conditions as the term `pinned`
+    (lifted from the source this lifter was written against), the text of `pinned`.  Equality on EVERY assignment of the
+    atoms (whether or not they can occur together) implies equality of the two Lean definitions, so this only re-spells:
+    swapped operands of and/or, De Morgan, `if c: A else: B` against `if not c: B else: A`, a guard moved past an
+    unrelated one, a comparison read from the other side."""
+    if pinned is None or t == pinned:
+        return text(t)
+    keys = sorted(atom_keys(t) | atom_keys(pinned), key=repr)
+    if atom_keys(t) != atom_keys(pinned) or len(keys) > 12:
+        return text(t)
+    for bits in range(2 ** len(keys)):
+        env = {k: bool(bits >> i & 1) for i, k in enumerate(keys)}
+        if ev(t, env) != ev(pinned, env):
+            return text(t)
+    return text(pinned)
 
 
 class Ctx:
@@ -47,27 +118,34 @@ class Ctx:
             return f"({q.numerator} : Rat)" if q.denominator == 1 else f"(({q.numerator} : Rat) / {q.denominator})"
         if isinstance(e, ast.BinOp) and isinstance(e.op, (ast.Add, ast.Sub, ast.Mult)):
             op = {ast.Add: "+", ast.Sub: "-", ast.Mult: "*"}[type(e.op)]
-            return f"({self.num(e.left)} {op} {self.num(e.right)})"
+            # numeric `+` / `*` are commutative: a commuted spelling of a pinned term is emitted in the pinned spelling
+            return normalize.lean_prefer(f"({self.num(e.left)} {op} {self.num(e.right)})", PINNED_NUM_TERMS)
         if isinstance(e, ast.UnaryOp) and isinstance(e.op, ast.USub):
             return f"(-{self.num(e.operand)})"
         self.bad(e, "not a numeric expression I understand")
 
-    # -- boolean expressions
+    # -- boolean expressions (Bool terms)
     def cond(self, e):
         t = ast.unparse(e)
         if t in self.atoms:
-            return self.atoms[t]
+            return ("atom", self.atoms[t], self.atoms[t], False)
+        if isinstance(e, ast.Compare) and len(e.ops) == 1 and isinstance(e.ops[0], (ast.Eq, ast.NotEq)):
+            # a named `a == b` atom written `b == a`, `a != b` or `b != a`
+            lt, rt = ast.unparse(e.left), ast.unparse(e.comparators[0])
+            for cand in (f"{lt} == {rt}", f"{rt} == {lt}"):
+                if cand in self.atoms:
+                    a = ("atom", self.atoms[cand], self.atoms[cand], False)
+                    return a if isinstance(e.ops[0], ast.Eq) else ("not", a)
         if isinstance(e, ast.BoolOp):
-            op = " && " if isinstance(e.op, ast.And) else " || "
-            return "(" + op.join(self.cond(v) for v in e.values) + ")"
+            return ("and" if isinstance(e.op, ast.And) else "or", [self.cond(v) for v in e.values])
         if isinstance(e, ast.UnaryOp) and isinstance(e.op, ast.Not):
-            return f"(!{self.cond(e.operand)})"
+            return ("not", self.cond(e.operand))
         if isinstance(e, ast.Compare):
             parts, left = [], e.left
             for op, right in zip(e.ops, e.comparators):
                 parts.append(self.link(e, left, op, right))
                 left = right
-            return parts[0] if len(parts) == 1 else "(" + " && ".join(parts) + ")"
+            return parts[0] if len(parts) == 1 else ("and", parts)
         self.bad(e, "not a condition I understand")
 
     def link(self, whole, left, op, right):
@@ -75,38 +153,47 @@ class Ctx:
         if isinstance(op, (ast.Is, ast.IsNot)):
             if not (isinstance(right, ast.Constant) and right.value is None) or lt not in self.optvars:
                 self.bad(whole, "`is` only against None on a known optional")
-            return self.optvars[lt] if isinstance(op, ast.IsNot) else f"(!{self.optvars[lt]})"
+            a = ("atom", self.optvars[lt], self.optvars[lt], False)
+            return a if isinstance(op, ast.IsNot) else ("not", a)
         if isinstance(op, (ast.In, ast.NotIn)):
             if lt not in self.strvars or rt not in self.tables:
                 self.bad(whole, "membership only of a known string in a lifted table")
             r = f"({self.tables[rt]}.contains {self.strvars[lt]})"
-            return r if isinstance(op, ast.In) else f"(!{r})"
+            a = ("atom", r, r, False)
+            return a if isinstance(op, ast.In) else ("not", a)
+        if isinstance(op, (ast.Eq, ast.NotEq)) and rt in self.strvars and isinstance(left, ast.Constant) and isinstance(left.value, str):
+            left, right, lt, rt = right, left, rt, lt       # `"lit" == s`
         if isinstance(op, (ast.Eq, ast.NotEq)) and lt in self.strvars and isinstance(right, ast.Constant) and isinstance(right.value, str):
             r = f"({self.strvars[lt]} == {lstr(right.value)})"
-            return r if isinstance(op, ast.Eq) else f"(!{r})"
+            a = ("atom", r, r, False)
+            return a if isinstance(op, ast.Eq) else ("not", a)
         sym = {ast.Lt: "<", ast.LtE: "≤", ast.Gt: ">", ast.GtE: "≥", ast.Eq: "=", ast.NotEq: "≠"}.get(type(op))
         if sym is None:
             self.bad(whole, "comparison operator")
-        return f"decide ({self.num(left)} {sym} {self.num(right)})"
+        ln, rn = self.num(left), self.num(right)
+        key, neg = {"<": (("lt", ln, rn), False), ">": (("lt", rn, ln), False), "≤": (("le", ln, rn), False),
+                    "≥": (("le", rn, ln), False), "=": (("eq",) + tuple(sorted((ln, rn))), False),
+                    "≠": (("eq",) + tuple(sorted((ln, rn))), True)}[sym]
+        return ("atom", f"decide ({ln} {sym} {rn})", key, neg)
 
-    # -- statements: Bool expression "completes without raising"
+    # -- statements: Bool term "completes without raising"
     allow_return = False     # `return` = the statements complete without raising
 
     def stmts(self, body, stop=None):
         if not body:
-            return "true"
+            return TRUE
         s, rest = body[0], body[1:]
         if stop is not None and stop(s):
-            return "true"
+            return TRUE
         if isinstance(s, ast.Raise):
-            return "false"
+            return FALSE
         if self.allow_return and isinstance(s, ast.Return):
-            return "true"
+            return TRUE
         if isinstance(s, ast.Expr) and isinstance(s.value, ast.Constant) and isinstance(s.value.value, str):
             return self.stmts(rest, stop)           # docstring
         if isinstance(s, ast.Expr) and isinstance(s.value, ast.Call) and ast.unparse(s.value).startswith(("super(", "logger.")):
             return self.stmts(rest, stop)
-        if isinstance(s, (ast.Assign, ast.AnnAssign)):
+        if isinstance(s, (ast.Assign, ast.AnnAssign, ast.Pass)):
             return self.stmts(rest, stop)
         if isinstance(s, ast.If):
             a, b = self.stmts(s.body, stop), self.stmts(s.orelse, stop)
@@ -115,11 +202,105 @@ class Ctx:
             def ends_in_return(blk):
                 return self.allow_return and bool(blk) and isinstance(blk[-1], ast.Return)
             if not ends_in_return(s.body):
-                a = r if a == "true" else ("false" if a == "false" else f"({a} && {r})")
+                a = r if a == TRUE else (FALSE if a == FALSE else ("and", [a, r]))
             if not ends_in_return(s.orelse):
-                b = r if b == "true" else ("false" if b == "false" else f"({b} && {r})")
-            return f"(if {self.cond(s.test)} then {a} else {b})"
+                b = r if b == TRUE else (FALSE if b == FALSE else ("and", [b, r]))
+            return ("ite", self.cond(s.test), a, b)
         self.bad(s, "statement kind")
+
+
+# the decision logic in the spelling this lifter was written against (function bodies, dedented; only `if` / `raise` /
+# `return` / the stop statement matter).  `prefer` emits a lifted term in this spelling whenever it denotes the same function.
+PINNED = {
+    "toFit": """
+if self.estimator is None:
+    raise ValueError(BASE_ESTIMATOR_NONE_ERROR_MESSAGE)
+if self.constraints in SIMPLE_CONSTRAINTS:
+    if self.objective not in OBJECTIVES_FOR_SIMPLE_CONSTRAINTS:
+        raise ValueError(NOT_SUPPORTED_OBJECTIVES_FOR_SIMPLE_CONSTRAINTS_ERROR_MESSAGE)
+elif self.constraints == "equalized_odds":
+    if self.objective not in OBJECTIVES_FOR_EQUALIZED_ODDS:
+        raise ValueError(NOT_SUPPORTED_OBJECTIVES_FOR_EQUALIZED_ODDS_ERROR_MESSAGE)
+else:
+    raise ValueError(NOT_SUPPORTED_CONSTRAINTS_ERROR_MESSAGE)
+self._predict_method = self.predict_method
+if kwargs.get(_KW_CONTROL_FEATURES) is not None:
+    raise ValueError(NO_CONTROL_FEATURES)
+""",
+    "degenerate": "n_positive == 0 or n_negative == 0",
+    "parity": """
+if (difference_bound is None) and (ratio_bound is None):
+    self.eps = _DEFAULT_DIFFERENCE_BOUND
+elif (difference_bound is not None) and (ratio_bound is None):
+    self.eps = difference_bound
+elif (difference_bound is None) and (ratio_bound is not None):
+    self.eps = ratio_bound_slack
+    if not (0 < ratio_bound <= 1):
+        raise ValueError(_MESSAGE_RATIO_NOT_IN_RANGE)
+    self.ratio = ratio_bound
+else:
+    raise ValueError(_MESSAGE_INVALID_BOUNDS)
+""",
+    "costs": """
+if costs is None:
+    self.fp_cost = 1.0
+elif isinstance(costs, dict) and costs.keys() == {'fp', 'fn'} and costs["fp"] >= 0.0 and costs["fn"] >= 0.0 \
+        and costs["fp"] + costs["fn"] > 0.0:
+    self.fp_cost = costs["fp"]
+else:
+    raise ValueError(_MESSAGE_BAD_COSTS)
+""",
+    "grid": """
+if not isinstance(constraints, Moment):
+    raise RuntimeError("Unsupported disparity metric")
+if selection_rule == TRADEOFF_OPTIMIZATION:
+    if not (0.0 <= constraint_weight <= 1.0):
+        raise RuntimeError("Must specify constraint_weight between 0.0 and 1.0")
+else:
+    raise RuntimeError("Unsupported selection rule")
+""",
+    "framePrefix": """
+if sample_params is not None and not isinstance(sample_params, dict):
+    raise ValueError(_SAMPLE_PARAMS_NOT_DICT)
+if not isinstance(metric, dict):
+    return annotated_functions
+if not sample_params_keys.issubset(metric_functions_keys):
+    raise ValueError(_SAMPLE_PARAM_KEYS_NOT_IN_FUNC_DICT)
+""",
+    "frameInner": """
+if not isinstance(sample_params, dict):
+    raise ValueError(_SAMPLE_PARAMS_NOT_DICT)
+""",
+}
+
+
+# locals (order of first binding) of the functions whose statements are matched by name (normalize.canon_tree)
+PINNED_LOCALS_MF = {
+    "MetricFrame._get_annotated_metric_functions": ["annotated_functions", "annotated_metric_function", "sample_params_keys",
+                                                    "metric_functions_keys", "name", "metric_function", "associated_sample_params"],
+    "MetricFrame._construct_annotated_metric_function": ["kw_argument_mapping", "param_name", "param_value", "col_name"],
+}
+PINNED_LOCALS_IT = {
+    "InterpolatedThresholder._pmf_predict": ["base_predictions", "_", "base_predictions_vector", "sensitive_feature_vector",
+                                             "positive_probs", "a", "interpolation", "interpolated_predictions"],
+}
+PINNED_LOCALS_TO = {"ThresholdOptimizer.predict": [], "ThresholdOptimizer._pmf_predict": []}
+
+
+def _pinned(ctx, key, expr=False, atoms=None):
+    """the Bool term of the pinned spelling under the same context (None if the context no longer understands it)"""
+    saved = ctx.atoms
+    try:
+        if atoms is not None:
+            ctx.atoms = atoms
+        tree = normalize.parse(PINNED[key].strip())
+        if expr:
+            return ctx.cond(tree.body[0].value)
+        return ctx.stmts(tree.body)
+    except Untranslatable:
+        return None
+    finally:
+        ctx.atoms = saved
 
 
 def _parse(repo, rel):
@@ -223,7 +404,7 @@ def _predict_guards(repo):
 def _frame_function_checks(repo):
     """MetricFrame._get_annotated_metric_functions (up to the loop over the metric dict) and the first guard of
     _construct_annotated_metric_function, as Bool expressions `true = no exception`"""
-    mf = _parse(repo, "fairlearn/metrics/_metric_frame.py")
+    mf = normalize.canon_tree(_parse(repo, "fairlearn/metrics/_metric_frame.py"), PINNED_LOCALS_MF)
     fn = _method(mf, "MetricFrame", "_get_annotated_metric_functions")
     txt = {ast.unparse(st) for st in ast.walk(fn) if isinstance(st, ast.Assign)}
     for need in ("sample_params = sample_params or {}", "sample_params_keys = set(sample_params.keys())",
@@ -245,13 +426,13 @@ def _frame_function_checks(repo):
     if kw.get("sample_params") != "associated_sample_params" or \
             "associated_sample_params = sample_params.get(name, {})" not in {ast.unparse(st) for st in loops[0].body}:
         raise Untranslatable("_get_annotated_metric_functions: per-metric sample_params are not sample_params.get(name, {})")
-    prefix = ctx.stmts(fn.body, lambda st: isinstance(st, ast.For))
+    prefix = prefer(ctx.stmts(fn.body, lambda st: isinstance(st, ast.For)), _pinned(ctx, "framePrefix"))
     inner = _method(mf, "MetricFrame", "_construct_annotated_metric_function")
     ictx = Ctx("MetricFrame._construct_annotated_metric_function", atoms={"isinstance(sample_params, dict)": "params_is_dict"})
     first_if = [st for st in inner.body if not (isinstance(st, ast.Expr) and isinstance(st.value, ast.Constant))][:1]
     if not first_if or not isinstance(first_if[0], ast.If):
         raise Untranslatable("_construct_annotated_metric_function: no leading type check of sample_params")
-    inner_ok = ictx.stmts(first_if)
+    inner_ok = prefer(ictx.stmts(first_if), _pinned(ictx, "frameInner"))
     return prefix, inner_ok
 
 
@@ -259,14 +440,23 @@ def _to_predict_checks(repo):
     """InterpolatedThresholder._pmf_predict: check_is_fitted first, then _validate_and_reformat_input(X, y=<base
     predictions>, sensitive_features=sensitive_features, expect_y=.., enforce_binary_labels=..); ThresholdOptimizer.predict /
     _pmf_predict delegate to it after their own check_is_fitted"""
-    it = _parse(repo, "fairlearn/postprocessing/_interpolated_thresholder.py")
+    it = normalize.canon_tree(_parse(repo, "fairlearn/postprocessing/_interpolated_thresholder.py"), PINNED_LOCALS_IT,
+                              extra_funcs=("_get_soft_predictions",))
     fn = _method(it, "InterpolatedThresholder", "_pmf_predict")
     calls = [c for c in ast.walk(fn) if isinstance(c, ast.Call) and ast.unparse(c.func) == "_validate_and_reformat_input"]
     if len(calls) != 1:
         raise Untranslatable("InterpolatedThresholder._pmf_predict: expected one _validate_and_reformat_input call")
     c = calls[0]
     kw = {k.arg: ast.unparse(k.value) for k in c.keywords}
-    if [ast.unparse(a) for a in c.args] != ["X"] or kw.get("sensitive_features") != "sensitive_features" or kw.get("y") != "base_predictions":
+    # y = the base predictions: `_get_soft_predictions(..)` (wrapped or not), directly or through the one local bound to it
+    yv = next((k.value for k in c.keywords if k.arg == "y"), None)
+    if isinstance(yv, ast.Name):
+        defs = [st for st in ast.walk(fn) if isinstance(st, ast.Assign) and len(st.targets) == 1 and isinstance(st.targets[0], ast.Name)
+                and st.targets[0].id == yv.id]
+        stores = [n for n in ast.walk(fn) if isinstance(n, ast.Name) and n.id == yv.id and isinstance(n.ctx, ast.Store)]
+        yv = defs[0].value if len(defs) == 1 and len(stores) == 1 else None
+    y_ok = yv is not None and any(isinstance(n, ast.Call) and ast.unparse(n.func) == "_get_soft_predictions" for n in ast.walk(yv))
+    if [ast.unparse(a) for a in c.args] != ["X"] or kw.get("sensitive_features") != "sensitive_features" or not y_ok:
         raise Untranslatable("InterpolatedThresholder._pmf_predict: arguments of _validate_and_reformat_input changed")
     for k in ("expect_y", "enforce_binary_labels", "expect_sensitive_features"):
         if k in kw and kw[k] not in ("True", "False"):
@@ -285,13 +475,21 @@ def _to_predict_checks(repo):
     enforce = kw.get("enforce_binary_labels", dflt.get("enforce_binary_labels"))
     if expect_sf not in ("True", "False") or expect_y not in ("True", "False") or enforce not in ("True", "False"):
         raise Untranslatable("_validate_and_reformat_input: defaults of expect_* / enforce_binary_labels are not literals")
-    to = _parse(repo, "fairlearn/postprocessing/_threshold_optimizer.py")
+    to = normalize.canon_tree(_parse(repo, "fairlearn/postprocessing/_threshold_optimizer.py"), PINNED_LOCALS_TO)
     deleg = True
     for m in ("predict", "_pmf_predict"):
         body = [st for st in _method(to, "ThresholdOptimizer", m).body
                 if not (isinstance(st, ast.Expr) and isinstance(st.value, ast.Constant))]
-        if len(body) != 2 or ast.unparse(body[0]) != "check_is_fitted(self)" or not isinstance(body[1], ast.Return) \
-                or not ast.unparse(body[1].value).startswith(f"self.interpolated_thresholder_.{m}(X, sensitive_features=sensitive_features"):
+        if len(body) != 2 or ast.unparse(body[0]) != "check_is_fitted(self)" or not isinstance(body[1], ast.Return):
+            deleg = False
+            continue
+        call = body[1].value
+        if not (isinstance(call, ast.Call) and ast.unparse(call.func) == f"self.interpolated_thresholder_.{m}"):
+            deleg = False
+            continue
+        kws = {k.arg: ast.unparse(k.value) for k in call.keywords}
+        first = ast.unparse(call.args[0]) if call.args else kws.get("X")      # X positionally or by keyword
+        if len(call.args) > 1 or first != "X" or kws.get("sensitive_features") != "sensitive_features":
             deleg = False
     return expect_sf == "True", expect_y == "True", enforce == "True", deleg
 
@@ -299,7 +497,7 @@ def _to_predict_checks(repo):
 @translate.lifter
 def validation_tables(repo):
     to = _parse(repo, "fairlearn/postprocessing/_threshold_optimizer.py")
-    tc = _parse(repo, "fairlearn/postprocessing/_tradeoff_curve_utilities.py")
+    tc = parse_tcu(repo)
     up = _parse(repo, "fairlearn/reductions/_moments/utility_parity.py")
     er = _parse(repo, "fairlearn/reductions/_moments/error_rate.py")
     gs = _parse(repo, "fairlearn/reductions/_grid_search/grid_search.py")
@@ -326,7 +524,7 @@ def validation_tables(repo):
               strvars={"self.constraints": "constraints", "self.objective": "objective"},
               tables={"SIMPLE_CONSTRAINTS": "(simpleConstraints.map Prod.fst)", "OBJECTIVES_FOR_SIMPLE_CONSTRAINTS": "objectivesSimple",
                       "OBJECTIVES_FOR_EQUALIZED_ODDS": "objectivesEO"})
-    to_prefix = ctx.stmts(fit.body, is_validate)
+    to_prefix = prefer(ctx.stmts(fit.body, is_validate), _pinned(ctx, "toFit"))
     if "kw" not in seen:
         raise Untranslatable("ThresholdOptimizer.fit no longer calls _validate_and_reformat_input")
     enforce = seen["kw"].get("enforce_binary_labels", "False")
@@ -336,16 +534,17 @@ def validation_tables(repo):
     # degenerate-label guard
     ctp = _func(tc, "_calculate_tradeoff_points")
     guard = [s for s in ctp.body if isinstance(s, ast.If) and "n_positive" in ast.unparse(s.test)]
-    if len(guard) != 1 or not (len(guard[0].body) == 1 and isinstance(guard[0].body[0], ast.Raise) and not guard[0].orelse):
+    if len(guard) != 1 or guard[0].orelse or not isinstance(guard[0].body[-1], ast.Raise) or any(
+            not (isinstance(x, ast.Assign) and all(isinstance(t, ast.Name) for t in x.targets)) for x in guard[0].body[:-1]):
         raise Untranslatable("_calculate_tradeoff_points: degenerate-label guard not of the shape `if <cond>: raise`")
     dctx = Ctx("_calculate_tradeoff_points", numvars={"n_positive": "(n_positive : Rat)", "n_negative": "(n_negative : Rat)"})
-    degenerate = dctx.cond(guard[0].test)
+    degenerate = prefer(dctx.cond(guard[0].test), _pinned(dctx, "degenerate", expr=True))
 
     # UtilityParity.__init__
     pctx = Ctx("UtilityParity.__init__",
                optvars={"difference_bound": "difference_bound_given", "ratio_bound": "ratio_bound_given"},
                numvars={"ratio_bound": "ratio_bound"})
-    parity = pctx.stmts(_method(up, "UtilityParity", "__init__").body)
+    parity = prefer(pctx.stmts(_method(up, "UtilityParity", "__init__").body), _pinned(pctx, "parity"))
 
     # ErrorRate.__init__
     keyset, keytext = None, None
@@ -357,13 +556,14 @@ def validation_tables(repo):
     ectx = Ctx("ErrorRate.__init__", optvars={"costs": "costs_given"},
                numvars={"costs['fp']": "costs_fp", "costs['fn']": "costs_fn"},
                atoms={"isinstance(costs, dict)": "costs_is_dict", keytext: "costs_keys_ok"})
-    costs = ectx.stmts(_method(er, "ErrorRate", "__init__").body)
+    costs = prefer(ectx.stmts(_method(er, "ErrorRate", "__init__").body),
+                   _pinned(ectx, "costs", atoms={"isinstance(costs, dict)": "costs_is_dict", "costs.keys() == {'fp', 'fn'}": "costs_keys_ok"}))
 
     # GridSearch.__init__
     gctx = Ctx("GridSearch.__init__", numvars={"constraint_weight": "constraint_weight"},
                atoms={"isinstance(constraints, Moment)": "constraints_is_moment",
                       "selection_rule == TRADEOFF_OPTIMIZATION": "selection_rule_ok"})
-    grid = gctx.stmts(_method(gs, "GridSearch", "__init__").body)
+    grid = prefer(gctx.stmts(_method(gs, "GridSearch", "__init__").body), _pinned(gctx, "grid"))
 
     guards = _predict_guards(repo)
     frame_prefix, frame_inner = _frame_function_checks(repo)
